@@ -1,13 +1,146 @@
 /-
-Oracle ops for the `tree` family.  Owned by the slice that models it; see AGENT_GUIDE.md.
+Oracle ops for the `tree` family (C03).
+
+Canonical prefix encoding of a tree (space separated words, byte strings in lowercase hex, empty = `-`):
+
+  n                      null
+  t | f                  true | false
+  N<lit>:<bits>          number: the literal in hex, then the binary64 bit pattern `Spec.f64Round lit`
+                         as 16 hex digits, or `ovf` when the literal overflows float64
+  S<hex>                 string, decoded bytes
+  A<k> v1 … vk           array of k values
+  O<k> n1 v1 … nk vk     object of k members in textual order, names decoded (hex words)
+
+Ops:
+  tree parse <hex>       the spec tree `Spec.Meaning.parseTree`, or `E` if the text is not valid JSON
+  tree fast <hex>        model of unmarshalValueAny & co.  : tree (maps in insertion order) or `E <class>`
+  tree gen <hex>         model of the generic arshaler route: tree or `E <class>`      class ∈ syntax dup range mismatch
+  tree iface <isAny> <opt> <hex>   `unmarshalIface` (interface target; isAny/opt ∈ 0 1)
+  tree map <opt> <hex>   `unmarshalMap` (target map[string]any)        tree slice <opt> <hex>   `unmarshalSlice` (target []any)
+  tree unesc <hex>       `Spec.Meaning.unescape` of a quoted string literal: `S<hex>` or `E`
+  tree f64 <hex>         `Spec.Meaning.f64Round` of a number literal: 16 hex digits or `ovf`
+  tree intern h1 … hk    `Model.AnyDecode.makeString` applied in sequence from the empty cache:
+                         for each string `<slot>:<0|1>` (slot index or `-` if not cached; 1 = returned from the cache)
 -/
 import JsonV.Oracle.Util
+import JsonV.Spec.Meaning
+import JsonV.Model.AnyDecode
 
 namespace JsonV.Oracle.Tree
-open JsonV JsonV.Oracle
+open JsonV JsonV.Oracle JsonV.Spec.Meaning JsonV.Model.AnyDecode
+
+def hex16 (n : Nat) : String :=
+  let s := hexOfNat n
+  String.ofList (List.replicate (16 - s.length) '0') ++ s
+
+def showF64 (lit : Bytes) : String :=
+  match f64Round lit with
+  | some b => hex16 b.toNat
+  | none => "ovf"
+
+mutual
+def encTree : MTree → List String → List String
+  | .null, acc => "n" :: acc
+  | .bool true, acc => "t" :: acc
+  | .bool false, acc => "f" :: acc
+  | .num l, acc => ("N" ++ hexOfBytes l ++ ":" ++ showF64 l) :: acc
+  | .str s, acc => ("S" ++ hexOfBytes s) :: acc
+  | .arr xs, acc => ("A" ++ toString xs.length) :: encList xs acc
+  | .obj ms, acc => ("O" ++ toString ms.length) :: encMembers ms acc
+def encList : List MTree → List String → List String
+  | [], acc => acc
+  | x :: xs, acc => encTree x (encList xs acc)
+def encMembers : List (Bytes × MTree) → List String → List String
+  | [], acc => acc
+  | (k, v) :: ms, acc => hexOfBytes k :: encTree v (encMembers ms acc)
+end
+
+def showTree (t : MTree) : String := " ".intercalate (encTree t [])
+
+mutual
+def encGo : GoAny Bytes → List String → List String
+  | .nil, acc => "n" :: acc
+  | .bool true, acc => "t" :: acc
+  | .bool false, acc => "f" :: acc
+  | .f64 l, acc => ("N" ++ hexOfBytes l ++ ":" ++ showF64 l) :: acc
+  | .str s, acc => ("S" ++ hexOfBytes s) :: acc
+  | .slice xs, acc => ("A" ++ toString xs.length) :: encGoList xs acc
+  | .map ms, acc => ("O" ++ toString ms.length) :: encGoMembers ms acc
+def encGoList : List (GoAny Bytes) → List String → List String
+  | [], acc => acc
+  | x :: xs, acc => encGo x (encGoList xs acc)
+def encGoMembers : List (Bytes × GoAny Bytes) → List String → List String
+  | [], acc => acc
+  | (k, v) :: ms, acc => hexOfBytes k :: encGo v (encGoMembers ms acc)
+end
+
+def showErr : Err → String
+  | .syntax => "E syntax"
+  | .dup => "E dup"
+  | .range => "E range"
+  | .mismatch => "E mismatch"
+
+def showRes (r : Except Err (GoAny Bytes)) : String :=
+  match r with
+  | .ok v => " ".intercalate (encGo v [])
+  | .error e => showErr e
+
+/-- The oracle's instance of the `FloatParse` parameter keeps the literal and reports overflow by the spec. -/
+def fpLit (lit : Bytes) : Option Bytes := if (f64Round lit).isSome then some lit else none
+
+def internSeq : Cache → List Bytes → List String → List String
+  | _, [], acc => acc.reverse
+  | c, b :: bs, acc =>
+    let slot := slotOf b
+    let hit := match slot with
+      | some i => c.get i == b
+      | none => false
+    let r := makeString c b
+    let w := (match slot with | some i => toString i | none => "-") ++ ":" ++ boolStr hit
+    internSeq r.2 bs (w :: acc)
 
 def handle (op : String) (args : List String) : String :=
   match op, args with
+  | "parse", [h] =>
+    match bytesOfHex h with
+    | some b => match parseTree b with
+      | some t => showTree t
+      | none => "E"
+    | none => badArgs
+  | "fast", [h] =>
+    match bytesOfHex h with
+    | some b => showRes (fast fpLit Cache.empty b)
+    | none => badArgs
+  | "gen", [h] =>
+    match bytesOfHex h with
+    | some b => showRes (generic fpLit Cache.empty b)
+    | none => badArgs
+  | "iface", [isAny, opt, h] =>
+    match bytesOfHex h with
+    | some b => showRes (unmarshalIface fpLit (isAny == "1") (opt == "1") Cache.empty b)
+    | none => badArgs
+  | "map", [opt, h] =>
+    match bytesOfHex h with
+    | some b => showRes (unmarshalMap fpLit (opt == "1") Cache.empty b)
+    | none => badArgs
+  | "slice", [opt, h] =>
+    match bytesOfHex h with
+    | some b => showRes (unmarshalSlice fpLit (opt == "1") Cache.empty b)
+    | none => badArgs
+  | "unesc", [h] =>
+    match bytesOfHex h with
+    | some b => match unescape b with
+      | some s => "S" ++ hexOfBytes s
+      | none => "E"
+    | none => badArgs
+  | "f64", [h] =>
+    match bytesOfHex h with
+    | some b => showF64 b
+    | none => badArgs
+  | "intern", hs =>
+    match hs.mapM bytesOfHex with
+    | some bs => " ".intercalate (internSeq Cache.empty bs [])
+    | none => badArgs
   | _, _ => "ERR unimplemented"
 
 end JsonV.Oracle.Tree
